@@ -103,9 +103,6 @@ fn ctor_params(c: &mut Cur) -> PResult<Vec<OField>> {
             return c.err("expected `val`");
         }
         let id = c.ident()?;
-        if !id.escaped && is_hard_keyword(&id.text) {
-            return c.err(format!("hard keyword `{}` used as a parameter name", id.text));
-        }
         f.ident = id.text.clone();
         f.escaped = id.escaped;
         f.key = f.ident.clone();
